@@ -20,8 +20,9 @@ RULES = {
     'R4': 'writer/reader record layout agree (C15.R5)',
     'R6': 'an overwrite ring that the writer has just emptied is writable: at write_pt == read_pt the "full" verdict that depends on the wake-up count is not reachable in overwrite mode, or the writer-side reclaim takes the count of the chunk it drops back (timedwait/reclaim callback in the make-room loop)',
     'R5': 'ring index arithmetic the overwrite path relies on (= C07.R2 chunk_step: skips the header, rounds up, result in [0, word_size - 1]; C07.R6 space_free: three index cases, an empty ring offers word_size)',
+    'R7': 'a write that is refused drops nothing: in overwrite mode the make-room loop is entered only after the requested length (plus the margin) was compared with the size of the whole ring, so a chunk that can never fit does not cost every stored chunk before it is refused',
 }
-FLOORS = {'R1': 5, 'R2': 3, 'R3': 9, 'R4': 2, 'R5': 8, 'R6': 1}
+FLOORS = {'R1': 5, 'R2': 3, 'R3': 9, 'R4': 2, 'R5': 8, 'R6': 1, 'R7': 1}
 
 
 def run(ctx):
@@ -49,6 +50,7 @@ def run(ctx):
         if r['key'].startswith('step-') or r['key'].startswith('space_free:') or r['key'] == 'length-at-offset-0':
             r['rule'] = 'R5'
             ctx.results.append(r)
+    r7(ctx)
 
 
 def r1(ctx):
@@ -224,3 +226,21 @@ def r6(ctx):
               'the count-dependent "full" verdict is %s' % ('not reachable in overwrite mode' if guarded else 'kept exact: the make-room loop takes the dropped chunk\'s count back'),
               'at write_pt == read_pt qb_rb_space_free reports "full" whenever the wake-up count is > 0, but the overwrite writer drops chunks without taking their count back: '
               'once it has emptied the ring (a chunk larger than half the ring), every later write fails with EINVAL and the ring stays empty')
+
+
+def r7(ctx):
+    prog = ctx.prog
+    f = prog.fn('qb_rb_chunk_alloc')
+    lenp = f.params[1]['n']
+    rec = list(f.calls('_rb_chunk_reclaim'))
+    if len(rec) != 1:
+        raise AnalysisBroken('qb_rb_chunk_alloc: reclaim calls=%d' % len(rec))
+
+    def can_fit(a, fb):
+        # len (+ margin) <= something measured on the whole ring (its word_size)
+        return a.op in ('<=', '<') and any(n.get('k') == 'var' and n['n'] == lenp for n in walk(a.l)) and \
+            any(n.get('k') == 'mem' and n.get('f') == 'word_size' for n in walk(a.r)) and not has_call(a.r, 'qb_rb_space_free')
+    ctx.check('R7', 'never-fitting-write-refused-before-reclaim', f.uncut_path(rec[0], can_fit) is None, rec[0],
+              'old chunks are dropped only for a chunk that the empty ring could hold',
+              'the make-room loop drops chunk after chunk for a request larger than the whole ring and fails only when none is left: '
+              'a write that is refused (EINVAL) has emptied the ring')
